@@ -1,8 +1,8 @@
 // C15 PROC/DIFF harness: starts the REAL pika runtime (one process = one case) under the
 // topology given by the environment (HWLOC_XMLFILE / HWLOC_SYNTHETIC, or the real machine)
 // and prints, from inside the running runtime, what every worker was given:
-//   OUT BIND <id> ok n=<workers> w=<mask>:<pu>:<pool>|... pools=<name>:<offset>:<count>|... [os=...] [in=...]
-//   OUT BIND <id> err=<class> msg=<canonical message>
+//   OUT BIND <id> ok pm=<logical process mask> n=<workers> w=<mask>:<pu>:<pool>|... pools=<name>:<offset>:<count>|... [os=...] [in=...]
+//   OUT BIND <id> err=<class> [pm=<logical process mask>] msg=<canonical message>
 // usage: c15_bind <id> <poolspec> <probe> [pika options...]
 //   poolspec  "-"  or  "a.b.c;d.e"  : extra pool k (named p1, p2, ...) takes the exposed PUs at the
 //             given positions of the partitioner's socket/core/pu enumeration (rp.sockets())
@@ -98,13 +98,23 @@ static std::string classify(std::string const& w)
     return "other";
 }
 
+// the process mask pika works with from set_cpubind_mask_main_thread on (LOGICAL indices): the result of
+// the OS-index -> logical-index conversion of --pika:process-mask (or of hwloc_get_cpubind)
+static std::string process_mask_hex()
+{
+    return mask_hex(pika::threads::detail::get_topology().get_cpubind_mask_main_thread());
+}
+
 static void report_error(std::string const& w)
 {
     std::string c = w;
     for (auto& ch : c)
         if (ch == '\n' || ch == ' ') ch = '_';
     if (c.size() > 300) c.resize(300);
-    std::printf("OUT BIND %s err=%s msg=%s\n", id.c_str(), classify(w).c_str(), c.c_str());
+    std::string cls = classify(w);
+    // a rejected --pika:process-mask was never stored: nothing to compare
+    std::string pm = (cls == "mask_past_hw" || cls == "mask_empty") ? std::string() : " pm=" + process_mask_hex();
+    std::printf("OUT BIND %s err=%s%s msg=%s\n", id.c_str(), cls.c_str(), pm.c_str(), c.c_str());
     std::fflush(stdout);
 }
 
@@ -217,7 +227,7 @@ int main(int argc, char** argv)
         std::size_t n = pika::get_num_worker_threads();
         std::size_t npools = pika::resource::get_num_thread_pools();
         std::ostringstream o;
-        o << "OUT BIND " << id << " ok n=" << n << " exposed=" << (exposed_str.empty() ? "-" : exposed_str)
+        o << "OUT BIND " << id << " ok pm=" << process_mask_hex() << " n=" << n << " exposed=" << (exposed_str.empty() ? "-" : exposed_str)
           << " w=";
         // pool of a worker: the pool whose [offset, offset+count) contains its global number
         std::vector<std::size_t> off(npools), cnt(npools);
